@@ -207,7 +207,15 @@ def rule_g(ctx):
     c13.rule_e(ctx)
 
 
+def rule_h(ctx):
+    from . import bcast
+    for w in ("output", "source"):
+        bcast.poll_rules(ctx, w)
+    bcast.output_slot_rules(ctx)
+
+
 RULES = [
+    ("C04.h", "a broadcast neither resolves early nor stalls: counter, waker registration, slot reuse", rule_h),
     ("C04.a", "spawned work is run before Ok", rule_a),
     ("C04.b", "mt Executor::run: activate, Ok iff idle and count 0", rule_b),
     ("C04.c", "worker loop: idle declared only by the last worker with an empty injector", rule_c),
